@@ -36,11 +36,11 @@ func (c *Case) ID() string {
 // expectation for one case
 type exp struct {
 	skip  bool
-	exact *string            // exact printed form
-	list  []string           // expected elements (printed), when isList
+	exact *string  // exact printed form
+	list  []string // expected elements (printed), when isList
 	isLst bool
 	pred  func(string) string // returns "" if ok, else what is wrong
-	key   string             // sub-key for the violation
+	key   string              // sub-key for the violation
 }
 
 func exact(s string) exp { return exp{exact: &s} }
@@ -768,7 +768,9 @@ type WRCase struct {
 	As              bool
 }
 
-func (c *WRCase) ID() string { return fmt.Sprintf("widthratio %d %d %d as=%v", c.Cur, c.Max, c.Width, c.As) }
+func (c *WRCase) ID() string {
+	return fmt.Sprintf("widthratio %d %d %d as=%v", c.Cur, c.Max, c.Width, c.As)
+}
 
 func (c *WRCase) Exec(t *eng.T) {
 	x := float64(c.Cur) / float64(c.Max) * float64(c.Width)
